@@ -60,8 +60,19 @@ impl futures::Stream for HStream {
 }
 impl Drop for HStream { fn drop(&mut self) { self.core.released.store(true, SeqCst); } }
 
+/// Queue-level object: a scheduler JobQueue plus a payload reached through a raw pointer, exactly as `Desync<T>` does it
+/// (needed because `suspend` exists only in the scheduler-level API)
+pub struct QObj { queue: Arc<desync::scheduler::JobQueue>, data: *mut Payload }
+unsafe impl Send for QObj {}
+unsafe impl Sync for QObj {}
+#[derive(Clone, Copy)] struct PPtr(*mut Payload);
+unsafe impl Send for PPtr {}
+unsafe impl Sync for PPtr {}
+impl Drop for QObj { fn drop(&mut self) { let d = PPtr(self.data); desync::scheduler::sync(&self.queue, move || { let d = d; drop(unsafe { Box::from_raw(d.0) }); }); } }
+
 pub struct Ctx {
     pub prog: Program,
+    qobjs: Vec<StdMutex<Option<Arc<QObj>>>>,
     objs: Vec<StdMutex<Option<Arc<Desync<Payload>>>>>,
     pub mons: Vec<Arc<ObjMon>>,
     events: Vec<EventCell>,
@@ -206,7 +217,7 @@ pub fn block_on<F: Future + Unpin>(mut f: F, max_polls: Option<usize>) -> Option
 }
 
 #[derive(Default)]
-pub struct Local { resumer: Option<desync::scheduler::QueueResumer>, out: Option<(usize, desync::PipeStream<u64>)> }
+pub struct Local { resumer: Option<desync::scheduler::QueueResumer>, susp_op: Option<usize>, out: Option<(usize, desync::PipeStream<u64>)> }
 
 fn check_ok_token(ctx: &Ctx, oid: usize, what: &str, got: Option<usize>) {
     let obj = ctx.with_op(oid, |r| r.obj);
@@ -225,8 +236,8 @@ pub fn exec_op(ctx: &Arc<Ctx>, op: &Op, caller: usize, nested: bool, local: &mut
         }
         Op::Open(g) => { let gt = &ctx.gates[*g]; *gt.open.lock().unwrap() = true; gt.cv.notify_all(); return; }
         Op::DropObj(q) => { let o = ctx.objs[*q].lock().unwrap().take(); drop(o); return; }
-        Op::Resume => { if let Some(r) = local.resumer.take() { r.resume(); } return; }
-        Op::DropResumer => { local.resumer.take(); return; }
+        Op::Resume => { if let Some(r) = local.resumer.take() { let t = ctx.tick(); if let Some(o) = local.susp_op.take() { ctx.with_op(o, |x| x.end = t); } r.resume(); } return; }
+        Op::DropResumer => { if let Some(r) = local.resumer.take() { let t = ctx.tick(); if let Some(o) = local.susp_op.take() { ctx.with_op(o, |x| x.end = t); } drop(r); } return; }
         Op::WaitEv(e) => { block_on(EventFut { ctx: ctx.clone(), e: *e }, None); return; }
         Op::AwaitUnwind => {
             // every started panic has been caught either by a caller's top level or at the top of a pool thread
@@ -291,6 +302,8 @@ pub fn exec_op(ctx: &Arc<Ctx>, op: &Op, caller: usize, nested: bool, local: &mut
         _ => {}
     }
     let q = op.obj().unwrap();
+    let qo = { let g = ctx.qobjs[q].lock().unwrap(); g.clone() };     // never hold a std lock across a scheduling point
+    if let Some(qo) = qo { exec_op_q(ctx, op, caller, nested, local, qo); return; }
     let obj = match ctx.obj(q) { Some(o) => o, None => return };
     let oid = ctx.new_op(op, caller, nested);
     let c2 = ctx.clone();
@@ -370,6 +383,62 @@ pub fn exec_op(ctx: &Arc<Ctx>, op: &Op, caller: usize, nested: bool, local: &mut
     let ret = ctx.tick();
     ctx.with_op(oid, |r| if r.ret == 0 { r.ret = ret });
     drop(obj);
+}
+
+/// The same operations through the scheduler-level API on a plain queue (programs that use `suspend`)
+fn exec_op_q(ctx: &Arc<Ctx>, op: &Op, caller: usize, nested: bool, local: &mut Local, qo: Arc<QObj>) {
+    use desync::scheduler as sch;
+    let oid = ctx.new_op(op, caller, nested);
+    let c2 = ctx.clone();
+    let inv = ctx.tick();
+    ctx.with_op(oid, |r| r.inv = inv);
+    let d = PPtr(qo.data);
+    match op {
+        Op::Desync(_, body) => {
+            let body = body.clone();
+            ctx.with_op(oid, |r| r.accepted = true);
+            ctx.add_pending();
+            struct Done(Arc<Ctx>);
+            impl Drop for Done { fn drop(&mut self) { self.0.done_pending(); } }
+            let done = Done(ctx.clone());
+            sch::desync(&qo.queue, move || { let _d = done; let d = d; run_body(&c2, oid, &body, unsafe { &mut *d.0 }, caller); });
+        }
+        Op::Sync(_, body) => {
+            ctx.with_op(oid, |r| r.accepted = true);
+            let got = sch::sync(&qo.queue, || { let d = d; run_body(&c2, oid, body, unsafe { &mut *d.0 }, caller); oid });
+            check_ok_token(ctx, oid, "C04", Some(got));
+        }
+        Op::TrySync(_, body) => {
+            match sch::try_sync(&qo.queue, || { let d = d; run_body(&c2, oid, body, unsafe { &mut *d.0 }, caller); oid }) {
+                Ok(v) => { ctx.with_op(oid, |r| r.accepted = true); check_ok_token(ctx, oid, "C09", Some(v)); }
+                Err(_) => { ctx.with_op(oid, |r| r.busy = true); }
+            }
+        }
+        Op::FutDesync(_, body, mode) => {
+            let body = body.clone();
+            ctx.with_op(oid, |r| r.accepted = true);
+            ctx.add_pending();
+            struct NotStarted(Option<Arc<Ctx>>);
+            impl Drop for NotStarted { fn drop(&mut self) { if let Some(c) = self.0.take() { c.done_pending(); } } }
+            let mut ns = NotStarted(Some(ctx.clone()));
+            let fut = sch::future_desync(&qo.queue, move || { ns.0.take(); let d = d; run_body_async(c2, oid, body, unsafe { &mut *d.0 }, caller, true) });
+            finish_future(ctx, oid, fut, mode, "C07");
+        }
+        Op::Suspend(_) => {
+            ctx.with_op(oid, |r| { r.accepted = true; });
+            let fut = sch::scheduler().suspend(&qo.queue).boxed();
+            let ret = ctx.tick();
+            ctx.with_op(oid, |r| r.ret = ret);
+            match block_on(fut, None).unwrap() {
+                Ok(res) => { let t = ctx.tick(); ctx.with_op(oid, |r| { r.start = t; r.runs = 1; }); local.resumer = Some(res); local.susp_op = Some(oid); }
+                Err(_) => ctx.error("C13", format!("suspend {} was cancelled", oid)),
+            }
+            return;
+        }
+        _ => { ctx.error("C13", format!("operation {} is not available in queue mode", fmt_op(op))); }
+    }
+    let ret = ctx.tick();
+    ctx.with_op(oid, |r| if r.ret == 0 { r.ret = ret });
 }
 
 /// `suspend` is only available on the scheduler level API; Desync does not expose its queue, so the harness uses a scheduler queue
@@ -476,9 +545,11 @@ pub struct Outcome { pub ctx: Arc<Ctx> }
 pub fn make_ctx(prog: &Program, fail_fast: bool, touch_yield: bool) -> Arc<Ctx> {
     let clock = Arc::new(AtomicU64::new(0));
     let mons: Vec<Arc<ObjMon>> = (0..prog.nq).map(|id| Arc::new(ObjMon { id, occ: AtomicI64::new(0), dead: AtomicBool::new(false), drops: AtomicUsize::new(0), free_tick: AtomicU64::new(0), panicked: AtomicBool::new(false) })).collect();
-    let objs = mons.iter().map(|m| StdMutex::new(Some(Arc::new(Desync::new(Payload { mon: m.clone(), clock: clock.clone(), canary: 0xC0FFEE }))))).collect();
+    let qmode = prog.callers.iter().flatten().any(|o| matches!(o, Op::Suspend(_)));
+    let objs = mons.iter().map(|m| StdMutex::new(if qmode { None } else { Some(Arc::new(Desync::new(Payload { mon: m.clone(), clock: clock.clone(), canary: 0xC0FFEE }))) })).collect();
+    let qobjs = mons.iter().map(|m| StdMutex::new(if qmode { Some(Arc::new(QObj { queue: desync::scheduler::queue(), data: Box::into_raw(Box::new(Payload { mon: m.clone(), clock: clock.clone(), canary: 0xC0FFEE })) })) } else { None })).collect();
     Arc::new(Ctx {
-        prog: prog.clone(), objs, mons,
+        prog: prog.clone(), objs, qobjs, mons,
         events: (0..prog.nev).map(|_| EventCell { st: StdMutex::new((false, vec![])) }).collect(),
         gates: (0..prog.ngates).map(|_| Gate { open: rt::sync::Mutex::new(false), cv: rt::sync::Condvar::new() }).collect(),
         streams: (0..prog.nstreams()).map(|_| Arc::new(StreamCore { st: StdMutex::new((Default::default(), false, None)), pushed: AtomicU64::new(0), released: AtomicBool::new(false), processed: StdMutex::new(vec![]), received: StdMutex::new(vec![]), ended_seen: AtomicBool::new(false), polls_after_gone: AtomicUsize::new(0) })).collect(),
@@ -519,11 +590,12 @@ pub fn run_program(ctx: &Arc<Ctx>) {
     desync::verif::log("api", "END", 0, String::new());
     // Quiescence: with a pool, wait without touching the queues; without one, callers must carry the work
     if prog.pool >= 1 { ctx.wait_all(); } else {
-        for q in 0..prog.nq { if let Some(o) = ctx.obj(q) { o.sync(|_| {}); } }
+        for q in 0..prog.nq { if let Some(o) = ctx.obj(q) { o.sync(|_| {}); } let qo = { let g = ctx.qobjs[q].lock().unwrap(); g.clone() }; if let Some(o) = qo { desync::scheduler::sync(&o.queue, || {}); } }
         ctx.wait_all();
     }
     let n_at_quiet = ctx.tick();
     // Drop the objects (Desync::drop = sync(free))
+    for q in 0..prog.nq { let o = ctx.qobjs[q].lock().unwrap().take(); drop(o); }
     for q in 0..prog.nq {
         let o = ctx.objs[q].lock().unwrap().take();
         if ctx.mons[q].panicked.load(SeqCst) {
@@ -561,6 +633,16 @@ pub fn end_oracles(ctx: &Arc<Ctx>, _quiet: u64) {
             if a.ret < b.inv && !(a.end != 0 && a.end < b.start) {
                 ctx.error("C02", format!("operation {} ({}) returned before operation {} ({}) was called, but did not finish before it started: {:?} {:?}", i, a.text, j, b.text, a, b));
             }
+        }
+    }
+    // C13: while a queue is suspended nothing scheduled after the suspend request starts; everything scheduled before has finished
+    for (i, u) in ops.iter().enumerate() {
+        if u.kind != 'U' || u.start == 0 { continue; }
+        for (j, b) in ops.iter().enumerate() {
+            if i == j || b.obj != u.obj || b.runs == 0 || b.kind == 'U' { continue; }
+            if b.ret != 0 && b.ret < u.inv && !(b.end != 0 && b.end < u.start) { ctx.error("C13", format!("suspend {} resolved at {} before the earlier operation {} finished: {:?}", i, u.start, j, b)); }
+            if b.inv > u.ret && u.end != 0 && b.start < u.end { ctx.error("C13", format!("operation {} scheduled after suspend {} started at {} before the resume at {}: {:?}", j, i, b.start, u.end, b)); }
+            if b.inv > u.ret && u.end == 0 { ctx.error("C13", format!("operation {} scheduled after suspend {} ran although the queue was never resumed", j, i)); }
         }
     }
     // C05: every object freed exactly once, after every operation on it
